@@ -11,6 +11,7 @@ import (
 	"github.com/cosmos/cosmos-proto/internal/testprotos/test3"
 	"github.com/cosmos/cosmos-proto/internal/verifsim/rndcorpus"
 	"github.com/cosmos/cosmos-proto/internal/verifsim/shapes"
+	"github.com/cosmos/cosmos-proto/internal/verifsim/simhook"
 	"github.com/cosmos/cosmos-proto/internal/verifsim/simrun"
 	"github.com/cosmos/cosmos-proto/testpb"
 	"google.golang.org/protobuf/proto"
@@ -53,6 +54,22 @@ func newRaceReports() string {
 	raceLogOff += int64(n)
 	return string(buf[:n])
 }
+
+// nFixed is the number of hand-written corpus types at the head of corpus (the
+// random corpus types are appended behind them at start-up).
+var nFixed = len(corpus)
+
+// pickTypeIndex draws a corpus type: half of the draws go to the hand-written
+// types (checked-in ones and the all-shapes schema, which alone hold Any,
+// Timestamp, every map kind ...), half to the whole corpus.
+func pickTypeIndex(t *simhook.Tape) int {
+	if len(corpus) == nFixed || t.Draw("type-fixed", 2) == 0 {
+		return t.Draw("type", nFixed)
+	}
+	return t.Draw("type-any", len(corpus))
+}
+
+func pickType(t *simhook.Tape) proto.Message { return corpus[pickTypeIndex(t)] }
 
 func main() {
 	e := &simrun.Engine{Name: "B-tasks"}
